@@ -37,7 +37,7 @@ func vhCheckArrayIndexSlab(m *ArrayMetaDataSlab, firstChild byte, n int, what st
 func VH_C05_ArrayIndexKernels() {
 	K := vhParam("k", 12)
 	T := vhRange32("T", 256, 32768)
-	vhSetThreshold(T)
+	vhSetThresholdSym(T)
 	storage := vhNewBasicStorage()
 	switch vhChoose("kernel", 2) {
 	case 0: // split of an index slab that just overflowed by one child header
@@ -164,7 +164,7 @@ func vhCheckMapIndexSlab(m *MapMetaDataSlab, firstChild byte, n int, what string
 func VH_C05_MapIndexKernels() {
 	K := vhParam("k", 10)
 	T := vhRange32("T", 256, 32768)
-	vhSetThreshold(T)
+	vhSetThresholdSym(T)
 	storage := vhNewBasicStorage()
 	var prev uint64
 	first := true
@@ -234,4 +234,40 @@ func VH_C05_MapIndexKernels() {
 		vhAssert(left.header.size <= maxThreshold, "map index merge: merged slab does not overflow")
 		vhReach("map-index-merged")
 	}
+}
+
+// The slab-size band and the per-element inline limits that the REAL
+// setThreshold derives, for every legal slab size T (symbolic; exact IEEE-754
+// rendering of its float computation): the band is [T/2, 1.5T]; two elements
+// of the largest inline size fit into a slab of size T next to the slab's
+// fixed overhead (arrays; maps incl. the per-element digest), so a slab that
+// exceeds the band holds at least two elements and can be split; a key of the
+// largest inline size leaves room for a value of the same size; two
+// underflowing slabs merge within the band. The same run discharges, with exact
+// floating-point semantics, the integer summary the engine applies to
+// float64(T)*1.5 in all other harnesses (they call the real setThreshold too).
+//
+//vh:prop C05
+//vh:fpexact
+//vh:mode bv
+func VH_C05_Thresholds() {
+	T := vhU32("T")
+	vhAssume(T >= minSlabSize)
+	vhAssume(T <= maxSlabSize)
+	setThreshold(T)
+	realMin, realMax := minThreshold, maxThreshold
+	realArr, realMapEl, realKey := maxInlineArrayElementSize, maxInlineMapElementSize, maxInlineMapKeySize
+	// property-level facts
+	vhAssert(realMin*2 <= T && T <= realMin*2+1, "lower bound of the band is half the slab size")
+	vhAssert(realMax*2 <= T*3 && T*3 <= realMax*2+1, "upper bound of the band is 1.5x the slab size")
+	vhAssert(realArr >= 1, "array inline limit admits some element")
+	vhAssert(arrayDataSlabPrefixSize+2*realArr <= T, "two array elements of the largest inline size fit a slab of size T")
+	vhAssert(realMapEl >= 1+singleElementPrefixSize+1, "map inline limit admits some key and value")
+	vhAssert(mapDataSlabPrefixSize+hkeyElementsPrefixSize+2*(digestSize+realMapEl) <= T, "two map elements of the largest inline size fit a slab of size T")
+	vhAssert(realKey >= 1, "map key inline limit admits some key")
+	vhAssert(singleElementPrefixSize+2*realKey <= realMapEl, "a key of the largest inline size leaves room for a value of the same size")
+	vhAssert(2*(realMin-1) <= realMax, "two underflowing slabs merge within the band")
+	// the summary the engine applies to the float computation elsewhere (lemma L-mul1.5)
+	vhAssert(uint32(float64(T)*1.5) == T+T/2, "uint32(float64(T)*1.5) == T + T/2 for every legal T")
+	vhReach("thresholds-done")
 }
